@@ -1,7 +1,7 @@
 (* Properties_C10.v -- regex matches are genuine, leftmost, greedy/left-biased, right group spans.
    Statements only; proofs are in ReProps*.v. *)
 From Coq Require Import List NArith ZArith.
-From NV Require Import Bytes GenConsts ReSyntax ReParse ReEmit ReVM ReSem RsetDefs ReProps ReProps2 ReProps3 ReProps4 ReProps5 ReProps9 ReGroups.
+From NV Require Import Bytes GenConsts ReSyntax ReParse ReEmit ReVM ReSem RsetDefs ReProps ReProps2 ReProps3 ReProps4 ReProps5 ReProps9 ReGroups ReGroups2.
 Import ListNotations.
 
 (* whatever the backtracking machine reports is a genuine run of the program (cut or no cut) *)
@@ -103,9 +103,31 @@ Theorem C10_rset_index : forall res flg rs, rset_shape res = true -> rset_make r
   exists body, tree (rs_prog rs) = NGrp body 1 1 1 /\
     wraps body (somes res) (map Z.to_nat (filter nonneg (firstn (rs_n rs) (rs_grp rs)))) /\
     map snd (filter (fun zs => nonneg (fst zs)) (combine (firstn (rs_n rs) (rs_grp rs)) (rs_setgrpcnt rs))) = map re_groupcount (somes res) /\
-    rs_grpcnt rs = 1 + ngroups (tree (rs_prog rs)) /\ nth (rs_n rs) (rs_grp rs) 0%Z = Z.of_nat (rs_grpcnt rs).
+    rs_grpcnt rs = 1 + ngroups (tree (rs_prog rs)) /\ nth (rs_n rs) (rs_grp rs) 0%Z = Z.of_nat (rs_grpcnt rs) /\
+    map Z.to_nat (filter nonneg (firstn (rs_n rs) (rs_grp rs))) = nums 2 (somes res).
 Proof. exact rset_index_full. Qed.
 Print Assumptions C10_rset_index.
+
+(* C10_rset_index, the semantic half ("the reported index is that of the alternative that matched"): for a set that passes
+   rset_shape, whenever rset_find reports index idx, the match regexec found is a derivation of the set semantics from a
+   tried start position p that goes THROUGH the wrapper group G = grp[idx] of alternative idx -- M (RGrp G (tr x)) between
+   the marks of the outer group -- and not through another alternative (the marks of a group are written only inside it,
+   the group numbers of different alternatives are disjoint, all marks start at -1); the groups handed back are read from
+   the final state r of exactly this derivation. *)
+Theorem C10_rset_index_semantic : forall res flg rs d line n fl idx g c,
+  rset_shape res = true -> rset_make res flg = Ok (Some rs) ->
+  rset_find_d d rs line n fl = (Ok (idx, g), c) -> (0 <= idx)%Z ->
+  let eflg := Z.lor REG_NEWLINE (Z.lor (if has fl RE_NOTBOL then REG_NOTBOL else 0%Z) (if has fl RE_NOTEOL then REG_NOTEOL else 0%Z)) in
+  let f := Z.lor (rs_cflg rs) eflg in
+  let G := Z.to_nat (nth (Z.to_nat idx) (firstn (rs_n rs) (rs_grp rs)) (-1)%Z) in
+  exists body x p s2 r,
+    tree (rs_prog rs) = NGrp body 1 1 1 /\ In (G, x) (wrappers body) /\
+    In p (tried line (length line + 2) 0 0) /\
+    M st (atom_step f line) mark_step (RGrp G (tr x)) (mark_step 2 (mark_step 0 (init p))) s2 /\
+    r = mark_step 1 (mark_step 3 s2) /\
+    regexec_d d (rs_prog rs) (rs_cflg rs) line (rs_grpcnt rs) eflg = (Ok (Some (psub_of (snd r) (rs_grpcnt rs))), c).
+Proof. exact rset_index_semantic. Qed.
+Print Assumptions C10_rset_index_semantic.
 
 (* the documented backtracking depth is a constant of the specification; the engine's limit is generated *)
 Theorem C10_documented_depth : (256 <= NDEPT)%Z.
